@@ -25,6 +25,10 @@ META = {
 DEFAULTS = ["http://d/", "http://a/"]
 
 
+# local parts that repeat a namespace URI (a URL carried inside a URL)
+NESTED_LOCALS = ["r?u=http://a/z", "http://other/x"]
+
+
 def gen_history(g, w, n_ops, probes=True):
     """run one random history on the implementation; returns list of oracle failures (dicts)"""
     r = g.rng
@@ -123,13 +127,19 @@ def gen_history(g, w, n_ops, probes=True):
                     state[c]["delegated_bare"] = True
                     flags.add("delegation")
             elif kind < 0.92:
-                x = r.choice(URIS + DEFAULTS) + r.choice(LOCALS)
+                x = r.choice(URIS + DEFAULTS) + r.choice(LOCALS + NESTED_LOCALS)
                 q = w.vqn(c, x)
                 if q is not None:
                     flags.add("compaction")
+                full = x
             else:
-                x = Identifier(r.choice(URIS) + r.choice(LOCALS))
+                x = Identifier(r.choice(URIS) + r.choice(LOCALS + NESTED_LOCALS))
                 q = w.vqn(c, x)
+                full = x.uri
+            if kind >= 0.8 and q is not None and q.uri != full:
+                # theorem c03_full_uri_denotes_itself: no scheme of URIS is ever a (renamed) prefix in these histories
+                failures.append({"step": i, "scope": c, "kind": "a", "print": full, "uri": full, "got": q.uri,
+                                 "name": ["", full, ""], "op_index": len(w.ops) - 1})
             if q is not None and c != d and isinstance(x, str):
                 # was it answered by the parent?
                 own = {n.prefix: n.uri for n in obj.get_registered_namespaces()}
@@ -201,7 +211,7 @@ def judge(ctx, w, failures, mo):
         else:
             sig = model_free_sig(f)
         ctx.count("oracle-fail:" + str(sig))
-        what = {"a": "(a) resolving QualifiedName %s (uri %s) in scope %d returned URI %s at step %d",
+        what = {"a": "(a) resolving the name or full URI %s (uri %s) in scope %d returned URI %s at step %d",
                 "b": "(b) registered prefix %s (uri %s) of scope %d now denotes %s after step %d",
                 "c": "(c) name %s (uri %s) handed out in scope %d resolves to %s after step %d"}[f.get("kind", "c")]
         out.append(Failure("oracle", sig, what % (f["print"], f["uri"], f["scope"], f["got"], f["step"]),
